@@ -189,6 +189,9 @@ func fmtGen(r *rand.Rand, lane string) *fmtCase {
 				add("##!>" + core.Pick(r, " ", "", "  ") + "include" + sp() + core.Pick(r, "inc1", "inc2", "inc1.ra") + core.Pick(r, "", "", " -- a b", "  --  s \"\"  ", " --x y"))
 			case k == 15:
 				add("##!>" + core.Pick(r, " ", "") + "include-except" + sp() + "inc1" + sp() + core.Pick(r, "exc1", "exc1 exc2") + core.Pick(r, "", "", " -- a b", "  --  s \"\" "))
+			case k == 16 && core.Chance(r, 1, 4):
+				// the same name defined twice; an include-except line without exclude files but with replacements
+				add(core.Pick(r, "##!> define def1 abc", "##!>  define  def1  xyz", "##!> include-except inc1 -- a b", "##!>include-except inc1 --@ X", "##!> include-except inc1  --  s \"\""))
 			case k == 16:
 				add("##!>" + core.Pick(r, " ", "", "  ") + "define" + sp() + core.Pick(r, "def1", "def-2", "d_3") + sp() + core.Pick(r, "abc", `[a-c]+`, `\d{2}`, "x{{def1}}") + core.Pick(r, "", " "))
 			case k == 19 && depth > 0:
@@ -271,8 +274,17 @@ func fmtGen(r *rand.Rand, lane string) *fmtCase {
 }
 
 func fmtTree(c *fmtCase) sut.Tree {
+	t := fmtTree0(c)
+	if fmtName(c) != "932100" {
+		// the chain-less file of the same rule lies next to it, in canonical layout: it is not the target
+		t["regex-assembly/932100.ra"] = raHeader + "\n\nnotthetarget\n"
+	}
+	return t
+}
+
+func fmtTree0(c *fmtCase) sut.Tree {
 	return sut.Tree{
-		"regex-assembly/932100.ra":                      c.Content,
+		fmtTargetOf(c):                                  c.Content,
 		"regex-assembly/include/inc1.ra":                "alpha\nbeta\n##! comment in include\n  gamma\n",
 		"regex-assembly/include/inc2.ra":                "delta\nepsilons\n",
 		"regex-assembly/exclude/exc1.ra":                "beta\n",
@@ -282,7 +294,16 @@ func fmtTree(c *fmtCase) sut.Tree {
 	}
 }
 
-const fmtTarget = "regex-assembly/932100.ra"
+// fmtName is the name under which the case's file is stored and addressed: for one case in four a chained rule's
+// file (with a canonical 932100.ra next to it that must stay untouched).
+func fmtName(c *fmtCase) string {
+	if len(c.Content)%4 == 3 {
+		return "932100-chain2"
+	}
+	return "932100"
+}
+
+func fmtTargetOf(c *fmtCase) string { return "regex-assembly/" + fmtName(c) + ".ra" }
 
 // c09All: format --check --all must fail exactly when some file is not canonical, wherever that file sits in the walk;
 // format --all must leave every file canonical.
@@ -370,7 +391,7 @@ func c09Check(env *core.Env, cc core.Case) core.Verdict {
 	before := sut.Snap(root)
 
 	// --check on x never writes
-	chk := cli(env, root, nil, "regex", "format", "--check", "932100")
+	chk := cli(env, root, nil, "regex", "format", "--check", fmtName(c))
 	if chk.Class() == sut.ClassTimeout {
 		return core.Incon("watchdog hit, not judged: %s", describe(chk))
 	}
@@ -381,7 +402,7 @@ func c09Check(env *core.Env, cc core.Case) core.Verdict {
 		return core.Viol("check-writes", "format --check modified the tree: %v", d)
 	}
 	// f(x)
-	f1 := cli(env, root, nil, "regex", "format", "932100")
+	f1 := cli(env, root, nil, "regex", "format", fmtName(c))
 	if f1.Class() == sut.ClassTimeout {
 		return core.Incon("watchdog hit, not judged: %s", describe(f1))
 	}
@@ -402,9 +423,9 @@ func c09Check(env *core.Env, cc core.Case) core.Verdict {
 		v.Features = append(v.Features, "refused")
 		return v
 	}
-	y, _ := sut.Read(root, fmtTarget)
+	y, _ := sut.Read(root, fmtTargetOf(c))
 	for _, d := range sut.Diff(before, sut.Snap(root)) {
-		if d != "~"+fmtTarget {
+		if d != "~"+fmtTargetOf(c) {
 			return core.Viol("touches-other-file", "format changed %s", d)
 		}
 	}
@@ -446,14 +467,14 @@ func c09Check(env *core.Env, cc core.Case) core.Verdict {
 	}
 	// idempotence: f(f(x)) = f(x), f^3(x) = f(x); --check passes on f(x)
 	for i := 2; i <= 3; i++ {
-		fi := cli(env, root, nil, "regex", "format", "932100")
-		yi, _ := sut.Read(root, fmtTarget)
+		fi := cli(env, root, nil, "regex", "format", fmtName(c))
+		yi, _ := sut.Read(root, fmtTargetOf(c))
 		if fi.Exit != 0 || yi != y {
 			return core.Viol("not-idempotent", "format applied %d times differs from format applied once (exit %d)\ncontent=%s\nonce =%s\nagain=%s", i, fi.Exit, core.Q(c.Content), core.Q(y), core.Q(yi))
 		}
 	}
 	if !c.Lint {
-		chk2 := cli(env, root, nil, "regex", "format", "--check", "932100")
+		chk2 := cli(env, root, nil, "regex", "format", "--check", fmtName(c))
 		if chk2.Exit != 0 {
 			return core.Viol("check-after-fails", "--check fails on a freshly formatted file: %s\nformatted=%s", describe(chk2), core.Q(y))
 		}
@@ -473,15 +494,15 @@ func c10Check(env *core.Env, cc core.Case) core.Verdict {
 		return core.Incon("cannot write tree: %v", err)
 	}
 	v := core.Verdict{Status: core.Held, Features: []string{"lane:" + c.Lane}, Counts: map[string]int{}}
-	g1 := cli(env, root, nil, "regex", "generate", "932100")
-	f1 := cli(env, root, nil, "regex", "format", "932100")
+	g1 := cli(env, root, nil, "regex", "generate", fmtName(c))
+	f1 := cli(env, root, nil, "regex", "format", fmtName(c))
 	if f1.Class() == sut.ClassTimeout {
 		return core.Incon("watchdog hit, not judged: %s", describe(f1))
 	}
 	if f1.Class() == sut.ClassFault {
 		return core.Viol("format-crash", "format crashed: %s\ncontent=%s", describe(f1), core.Q(c.Content))
 	}
-	y, _ := sut.Read(root, fmtTarget)
+	y, _ := sut.Read(root, fmtTargetOf(c))
 	if f1.Exit != 0 {
 		if y != c.Content {
 			return core.Viol("failed-format-writes", "format failed (exit %d) but changed the file\ncontent=%s\nnow=%s", f1.Exit, core.Q(c.Content), core.Q(y))
@@ -489,7 +510,7 @@ func c10Check(env *core.Env, cc core.Case) core.Verdict {
 		v.Features = append(v.Features, "refused")
 		return v
 	}
-	g2 := cli(env, root, nil, "regex", "generate", "932100")
+	g2 := cli(env, root, nil, "regex", "generate", fmtName(c))
 	if g1.Class() == sut.ClassFault || g2.Class() == sut.ClassFault {
 		// a crash of generate is C19's business; here only the comparison matters
 		v.Features = append(v.Features, "generate-fault")
